@@ -535,3 +535,110 @@ def sm_params(ctx):
            why='the parameter table of Parameters.apply is wrong for %d of %d masks, first: [%s] %s'
                % (len({m_ for m_, _ in bad}), len(masks), mt(bad[0][0]) if bad else '',
                   bad[0][1] if bad else ''))
+
+
+# ---------------------------------------------------------------------------- SM-DRAW
+def sm_draw(ctx):
+    """Parameters.from_EstimationModel executed with a symbolic random state."""
+    from ..expr import Obj, Opaque
+    ctx.rule('SM-DRAW', 'Parameters.from_EstimationModel: transform - I = scale_misal_sd * (unit '
+             'draws, one per element), bias = bias_sd * (unit draws, one per axis), noise and bias '
+             'walk are the model\'s own, the random state is handed on; the defaults of Parameters '
+             'are the error-free sensor (identity, zeros)')
+    repo = ctx.repo
+    cls = repo.klass('inertial_sensor.Parameters')
+    fe = cls.methods.get('from_EstimationModel')
+    ctx.need(fe is not None, 'Parameters.from_EstimationModel missing')
+    ctx.touch(fe)
+    A = Alg()
+    draws = []
+
+    class H(_Hooks):
+        def call(self, ev, q, node, args, kwargs, env):
+            if q is not None and q.endswith('check_random_state'):
+                return args[0] if args and isinstance(args[0], Opaque) else Opaque('rng')
+            return self.abs_call(ev, q, args)
+
+        def attr(self, ev, base, a, node):
+            if isinstance(base, Opaque) and base.tag == 'rng' and a == 'randn':
+                def draw(*shape):
+                    if not all(isinstance(d, int) for d in shape):
+                        raise Unsupported('random draw of shape %r' % (shape,))
+                    k = len(draws)
+                    out = SArray(tuple(shape), {})
+                    for i in out.indices():
+                        out.entries[i] = A.sym('n%d_%s' % (k, '_'.join(map(str, i))))
+                    draws.append(out)
+                    return out
+                return draw
+            return None
+    ev = SymEval(repo, A, hooks=H())
+    model = Obj(repo.klass('inertial_sensor.EstimationModel'))
+    vec = lambda nm, shp: SArray(shp, {i: A.sym('%s%s' % (nm, ''.join(map(str, i))))
+                                       for i in SArray(shp, {}).indices()})
+    model.attrs.update(bias_sd=vec('bs', (3,)), noise=vec('no', (3,)), bias_walk=vec('bw', (3,)),
+                       scale_misal_sd=vec('sm', (3, 3)))
+    rng = Opaque('rng')
+    try:
+        o = ev.call_function(fe, [model, rng], {}, cls if fe.is_classmethod else Obj(cls))
+    except RuntimeFailure as e:
+        ctx.ob('SM-DRAW', False, None, 'from_EstimationModel evaluates', f=fe, node=fe.node,
+               key='raises', why='Parameters.from_EstimationModel raises: %s' % e)
+        return
+    except Unsupported as e:
+        raise AnalysisError('Parameters.from_EstimationModel not analysable: %s' % e)
+    ctx.need(isinstance(o, Obj) and all(k in o.attrs for k in
+                                        ('transform', 'bias', 'noise', 'bias_walk', 'rng')),
+             'Parameters.from_EstimationModel: result is not a Parameters object')
+    used = set()
+
+    def unit_of(v, sd):
+        """v = +- sd * n for a unit draw n not used before -> True"""
+        if not isinstance(v, Rat):
+            return False
+        for a_ in sorted(A.atoms_of(v)):
+            if a_.startswith('n') and a_ not in used and '_' in a_:
+                if A.eq(v, A.mul(sd, A.sym(a_))) or A.eq(v, A.neg(A.mul(sd, A.sym(a_)))):
+                    used.add(a_)
+                    return True
+        return False
+    tr, bi = o.attrs['transform'], o.attrs['bias']
+    okt = isinstance(tr, SArray) and tr.shape == (3, 3) and all(
+        unit_of(A.sub(tr.get((i, j)), A.const(1 if i == j else 0)),
+                model.attrs['scale_misal_sd'].get((i, j))) for i in range(3) for j in range(3))
+    ctx.ob('SM-DRAW', okt, None, 'transform = I + scale_misal_sd * unit draws (element-wise, '
+           'independent)', f=fe, node=fe.node, key='transform',
+           why='the simulated transform is not identity + scale_misal_sd[i, j] * (an independent '
+               'unit draw) in every element')
+    okb = isinstance(bi, SArray) and bi.shape == (3,) and all(
+        unit_of(bi.get((i,)), model.attrs['bias_sd'].get((i,))) for i in range(3))
+    ctx.ob('SM-DRAW', okb, None, 'bias = bias_sd * unit draws (per axis, independent)', f=fe,
+           node=fe.node, key='bias',
+           why='the simulated bias is not bias_sd[axis] * (an independent unit draw) per axis')
+    for nm in ('noise', 'bias_walk'):
+        v = o.attrs[nm]
+        ok = isinstance(v, SArray) and v.shape == (3,) and all(
+            A.eq(v.get((i,)), model.attrs[nm].get((i,))) for i in range(3))
+        ctx.ob('SM-DRAW', ok, None, '%s is the model\'s %s' % (nm, nm), f=fe, node=fe.node,
+               key=nm, why='the simulated %s is not the %s of the estimation model' % (nm, nm))
+    ctx.ob('SM-DRAW', o.attrs['rng'] is rng, None, 'the random state is handed on', f=fe,
+           node=fe.node, key='rng',
+           why='the Parameters object does not continue with the random state the parameters were '
+               'drawn from')
+    # defaults: error-free sensor
+    ev2 = SymEval(repo, Alg(), hooks=H())
+    try:
+        d = ev2.construct(cls, [], {})
+    except Unsupported as e:
+        raise AnalysisError('Parameters() not analysable: %s' % e)
+    A2 = ev2.A
+    tr, bi, no, bw = (d.attrs.get(k) for k in ('transform', 'bias', 'noise', 'bias_walk'))
+    okd = isinstance(tr, SArray) and tr.shape == (3, 3) and all(
+        A2.eq(tr.get((i, j)), A2.const(1 if i == j else 0)) for i in range(3) for j in range(3)) \
+        and all(isinstance(v, SArray) and v.shape == (3,) and
+                all(A2.is_zero(v.get((i,))) for i in range(3)) for v in (bi, no, bw))
+    init = cls.methods['__init__']
+    ctx.ob('SM-DRAW', okd, None, 'Parameters() is the error-free sensor', f=init, node=init.node,
+           key='defaults',
+           why='Parameters() without arguments is not identity transform / zero bias, noise and '
+               'bias walk')
